@@ -433,8 +433,10 @@ func (w *World) c08Observe(ev *httpEvent, kind int, poller bool) {
 			if !poller {
 				st.directLatest++
 			}
+			// "before the source is asked again": any upstream request for
+			// the head counts as asking, whether or not it was answered
+			st.headHits = 0
 			if !failed {
-				st.headHits = 0
 				st.latestAnswers++
 			}
 			return
